@@ -230,7 +230,7 @@ func (iter *DBIterator) populate() {
 
 		// Bookkeeping the engine stores in the user keyspace (the value-log discard
 		// statistics) is not part of what a client wrote.
-		if bytes.HasPrefix(userKey, internalKeyPrefix) {
+		if isBookkeepingKey(userKey) {
 			iter.iitr.Next()
 			continue
 		}
